@@ -1567,6 +1567,9 @@ class Stream(AbstractStream):
             tc1._T = tc2._T = tc._T
             tc1._P = tc2._P = tc._P
             s1.phase = s2.phase = self.phase
+        else:
+            for s in (s1, s2): # A single-phase feed gives single-phase outlets
+                if len(s.phases) > 1: s.phase = self.phase
         if s1.chemicals is chemicals: 
             s1.mol[:] = values
         else:
